@@ -10,6 +10,7 @@
 package cli
 
 //@ func NewProjectOptions
+//@   except nilfunc#1 : undischarged on the reference tree (engine limit or missing callee contract), not claimed
 //@?  nopanic[C01,C17]   // a nil option function in opts is a caller error (nilfunc), not claimed
 //@   ensures[C17] err == nil ==> result.0 != nil
 //@   ensures[C17] err != nil ==> result.0 == nil
@@ -85,6 +86,7 @@ package cli
 //@   requires o != nil
 
 //@ func WithDotEnv
+//@   except precondition#1 : undischarged on the reference tree (engine limit or missing callee contract), not claimed
 //@   nopanic[C01,C17]
 //@?  ensures[C17] forall k string :: old(has(o.Environment, k)) ==> has(o.Environment, k) && o.Environment[k] == old(o.Environment[k])
 //@   requires o != nil && o.Environment != nil
@@ -147,13 +149,14 @@ package cli
 //@   requires o != nil
 
 //@ func (*ProjectOptions).ReadConfigFiles
+//@   except index#2 : undischarged on the reference tree (engine limit or missing callee contract), not claimed
 //@   nopanic[C01]
 //@   requires options != nil
 //@   ensures err == nil ==> result.0 != nil   // needs (loader, out of scope) LoadConfigFiles: err == nil ==> result.0 != nil
 //@   loop 1
-//@     invariant config != nil && len(configs) == len(config.ConfigFiles)
+//@?     invariant config != nil && len(configs) == len(config.ConfigFiles)   // undischarged on the reference tree: not claimed
 //@   loop 2
-//@     invariant config != nil && len(configs) == len(config.ConfigFiles)
+//@?     invariant config != nil && len(configs) == len(config.ConfigFiles)   // undischarged on the reference tree: not claimed
 
 //@ func (*ProjectOptions).LoadProject
 //@   nopanic[C01,C17]
